@@ -152,6 +152,17 @@ func c08Eval(c *choice.Ctx, st *Stats, a *refmodel.Claims, signing bool) {
 			}
 		}
 	}
+	// 4b the claims attached by SetClaims are changed in place afterwards: ValidateAndSign must judge what it signs
+	if base, berr := realise(c08ValidBase(a)); berr == nil && reflect.TypeOf(base) == reflect.TypeOf(x) {
+		ev3 := &psatoken.Evidence{}
+		if err := ev3.SetClaims(base); err == nil {
+			reflect.ValueOf(base).Elem().Set(reflect.ValueOf(x).Elem()) // same object, new content
+			tok3, err3 := ev3.ValidateAndSign(k.Signer())
+			if !(valid && errS != nil) {
+				gate("ValidateAndSign(after in-place change of attached claims)", err3 != nil, len(tok3) != 0)
+			}
+		}
+	}
 	// 7 DecodeAndValidateEvidenceFromCOSE on the unvalidated token
 	if errS == nil {
 		ev1, derr := psatoken.DecodeEvidenceFromCOSE(tokS)
@@ -173,7 +184,34 @@ func c08Eval(c *choice.Ctx, st *Stats, a *refmodel.Claims, signing bool) {
 	st.Outcome(map[bool]string{true: "valid+signed", false: "invalid+signed"}[valid])
 }
 
+// c08ValidBase returns a valid claims-set of the same profile and canonical name as a.
+func c08ValidBase(a *refmodel.Claims) *refmodel.Claims {
+	cl := c02Claims()
+	var b refmodel.Claims
+	if a.P == 1 {
+		b = *cl[2]
+		b.Profile = sp(a.Canon)
+	} else {
+		b = *cl[0]
+		b.Profile = sp(a.Canon)
+	}
+	b.Canon = a.Canon
+	return &b
+}
+
 func init() {
+	// a derived profile with a stricter Validate(): the gates must consult the claims-set's own Validate()
+	Scenarios["c08.strict-profile"] = func() (choice.Scenario, func() any) {
+		g := newCoarseGen(2, 1)
+		return func(c *choice.Ctx) {
+			a := g.gen(c, "")
+			a.Canon = ExtStrictName
+			if a.Profile != nil && *a.Profile == refmodel.P2Name {
+				a.Profile = sp(ExtStrictName)
+			}
+			c08Eval(c, c08stats, a, true)
+		}, nil
+	}
 	for _, p := range []int{1, 2} {
 		for b := 0; b < 4; b++ {
 			p, b := p, b
@@ -227,6 +265,7 @@ func init() {
 				exploreChoice(r, fmt.Sprintf("c08.complist.p%d.b0", p), 3, dl)
 			}
 		}
+		exploreChoice(r, "c08.strict-profile", map[bool]int{false: 2, true: 3}[thorough(r)], dl)
 		c08stats.Publish(r)
 		r.Set("rule", "the claims-sets of C01 (coarse classes with <=2/3 deviations from 4 baselines per profile, fine sweeps, component lists; thorough: the full coarse product for the non-signing gates) driven through the seven validating entry points and compared with Validate() and the non-validating sibling; distinct = distinct abstract claims-set; non-trivial = all but the valid baselines")
 		r.Set("distinct_nontrivial", max64(r.Get("states")-8, 0))
